@@ -12,6 +12,12 @@ A scenario (JSON-able):
      "open": n,                          # "iter": event-loop iterations the application lets pass
                                          # between `await request.response` and `async for`
      "work": k,                          # "iter": loop iterations spent in the loop body per item
+     "cancel_at": id,                    # "callbacks": the callback calls request.observation.cancel() when it is
+                                         # handed the message with this id (from inside the callback)
+     "eb_cancels": bool,                 # "callbacks": the errback calls request.observation.cancel()
+     "rc": i,                            # the application gives the request up -- request.response.cancel(), what
+                                         # asyncio.wait_for does on time-out -- just before arrival i (0 = before
+                                         # the first response; later the future is complete and nothing changes)
      "arrivals": [[gap, "M", code, obs|None, id] | [gap, "X", k]]}
 `gap` = event-loop iterations the harness yields before that arrival (0 = back to back with the
 previous one, i.e. while nobody else has run); `k`: 0 = the message layer reports a Reset of the
@@ -20,7 +26,7 @@ This level is judged by the oracle only.
 """
 import asyncio
 
-from c07_pipe import EXC_NAMES, rfc_fresher
+from c07_pipe import EXC_NAMES, rfc_fresher, is_notification
 
 
 class FakeRemote:
@@ -58,8 +64,14 @@ class FakeTokenInterface:
         pass
 
 
-def _name(e):
-    return e.__name__ if isinstance(e, type) else type(e).__name__
+def _name(e, Error=None):
+    """name of the exception the application was handed; marked when it is not what the property promises --
+    an exception class instead of an instance, an exception that is not derived from aiocoap's error.Error"""
+    if isinstance(e, type):
+        return "class:" + e.__name__
+    if Error is not None and not isinstance(e, Error):
+        return "not-an-aiocoap-error:" + type(e).__name__
+    return type(e).__name__
 
 
 class AppBench:
@@ -96,11 +108,23 @@ class AppBench:
         escaped = []
         work = sc.get("work", 0)
 
+        Error = self.error.Error
+        cancel_at = sc.get("cancel_at")
+
+        def app_callback(m):
+            n = int(m.payload or b"0")
+            seen.append(("item", n))
+            if n == cancel_at:
+                req.observation.cancel()
+
         if sc["consumer"] == "callbacks":
-            req.observation.register_callback(lambda m: seen.append(("item", int(m.payload or b"0"))),
-                                              _suppress_deprecation=True)
-            req.observation.register_errback(lambda e: seen.append(("eb", _name(e))),
-                                             _suppress_deprecation=True)
+            req.observation.register_callback(app_callback, _suppress_deprecation=True)
+            def app_errback(e):
+                seen.append(("eb", _name(e, Error)))
+                if sc.get("eb_cancels"):
+                    req.observation.cancel()
+
+            req.observation.register_errback(app_errback, _suppress_deprecation=True)
 
         async def consume():
             try:
@@ -110,7 +134,7 @@ class AppBench:
                         await asyncio.sleep(0)
                 seen.append(("stop",))
             except Exception as e:
-                seen.append(("raise", _name(e)))
+                seen.append(("raise", _name(e, Error)))
 
         async def turn(n):
             for _ in range(n):
@@ -124,6 +148,7 @@ class AppBench:
         resp = None
         pending = None
         snapshot = []
+        after_shutdown = None
         open_delay = sc.get("open", 0)
 
         async def opener():
@@ -132,12 +157,26 @@ class AppBench:
                 await req.response
             except Exception:
                 pass
+            except asyncio.CancelledError:
+                if not req.response.cancelled():
+                    raise                   # (this task is being cancelled, not the response future)
             for _ in range(open_delay):
                 await asyncio.sleep(0)
             await consume()
 
         try:
-            for idx, a in enumerate(sc["arrivals"]):
+            if sc.get("rc") is not None and sc["consumer"] == "iter":
+                # the application iterates from the start (and waits for the response elsewhere)
+                consumer = loop.create_task(opener() if sc["rc"] else consume())
+                await turn(2)
+            for idx, a in enumerate(sc["arrivals"] + [None]):
+                if sc.get("rc") == idx:
+                    if idx:
+                        await turn(8)
+                    req.response.cancel()
+                    await turn(3)
+                if a is None:
+                    break
                 await turn(a[0])
                 try:
                     if a[1] == "M":
@@ -159,6 +198,8 @@ class AppBench:
             if req.response.done() and not req.response.cancelled():
                 e = req.response.exception()
                 resp = ("raise", _name(e)) if e is not None else ("resp", int(req.response.result().payload or b"0"))
+            elif req.response.cancelled():
+                resp = ("cancelled",)
             if consumer is not None:
                 pending = not consumer.done()
                 if pending:
@@ -170,10 +211,11 @@ class AppBench:
                 await ctx.shutdown()
             except Exception as e:        # noqa
                 escaped.append(("shutdown", type(e).__name__))
-            await turn(3)
+            await turn(8)
+            after_shutdown = seen[len(snapshot):]
             loop.set_exception_handler(old_handler)
         return {"seen": snapshot, "resp": resp, "escaped": escaped, "loop_errors": loop_errors,
-                "pending": pending}
+                "pending": pending, "after_shutdown": after_shutdown}
 
 
 # ---------------------------------------------------------------------------------------------
@@ -187,6 +229,27 @@ def oracle_app(sc, res):
     if res["loop_errors"]:
         return f"exception reached the event loop: {res['loop_errors'][0]}", "app:loop-exception"
     arr = sc["arrivals"]
+    seen = res["seen"]
+    for x in seen:
+        if x[0] in ("eb", "raise") and ":" in x[1]:
+            return (f"the application was handed {x[1]} as the error: the end of an observation is an exception "
+                    "instance derived from aiocoap's error.Error"), "app:error-not-instance"
+    if sc.get("rc") == 0:
+        # the request was given up before its first response: the observation is ended, once, with an error
+        # (whoever iterates over it would wait for ever otherwise); nothing is handed over
+        if res["resp"] != ("cancelled",):
+            return f"response future: cancelled by the application, found {res['resp']}", "app:response"
+        if [x for x in seen if x[0] == "item"]:
+            return f"items handed over although the request was given up: {seen}", "app:after-end"
+        if sc["consumer"] == "callbacks":
+            if [x[0] for x in seen] != ["eb"]:
+                return (f"request.response cancelled before the first response: errbacks must fire once, "
+                        f"saw {seen}"), "app:response-cancelled"
+        elif res["pending"] or len(seen) != 1 or seen[0][0] not in ("stop", "raise"):
+            return (f"request.response cancelled before the first response: the `async for` consumer of "
+                    f"request.observation must end, it {'is still pending' if res['pending'] else 'saw'} "
+                    f"{seen}"), "app:response-cancelled"
+        return "", None
     # what the property allows / demands, from the arrivals alone (all within far less than 128 s)
     first = arr[0]
     accepted = []        # ids of notifications fresher than the last accepted, in order (after the first)
@@ -198,7 +261,8 @@ def oracle_app(sc, res):
         want_resp = ("raise", end)
     else:
         want_resp = ("resp", first[4])
-        if first[3] is None:
+        if not is_notification(first[2], first[3]):
+            # "not observable if the first response carries no Observe option" (as every non-2.xx one)
             end = "NotObservable"
         else:
             last = first[3]
@@ -206,7 +270,7 @@ def oracle_app(sc, res):
                 if a[1] == "X":
                     end = EXC_NAMES[a[2]]
                     break
-                if a[3] is None:
+                if not is_notification(a[2], a[3]):
                     end, final = "ObservationCancelled", a[4]
                     break
                 if rfc_fresher(last, 0, a[3], 0):
@@ -215,7 +279,6 @@ def oracle_app(sc, res):
     if res["resp"] != want_resp:
         return f"response future: expected {want_resp}, got {res['resp']}", "app:response"
     allowed = accepted + ([final] if final is not None else [])
-    seen = res["seen"]
     items = []
     k = 0
     while k < len(seen) and seen[k][0] == "item":
@@ -233,6 +296,14 @@ def oracle_app(sc, res):
                     f"(allowed {allowed})"), "app:order"
         j += 1
     direct = not sc["blockwise"] and sc["consumer"] == "callbacks"
+    if sc.get("cancel_at") is not None and sc["cancel_at"] in items:
+        # the application cancelled from inside its callback: nothing is delivered after that
+        if items[-1] != sc["cancel_at"] or tail:
+            return (f"the application cancelled the observation from inside its callback at #{sc['cancel_at']}, "
+                    f"then was handed {seen[items.index(sc['cancel_at']) + 1:]}"), "app:after-cancel"
+        if direct and items != allowed[:len(items)]:
+            return f"callbacks got {items}, expected every fresher notification {allowed}", "app:fresh-dropped"
+        return "", None
     if direct and items != allowed:
         return f"callbacks got {items}, expected every fresher notification {allowed}", "app:fresh-dropped"
     if allowed and (not items or items[-1] != allowed[-1]):
@@ -246,6 +317,11 @@ def oracle_app(sc, res):
         if end is None:
             if ebs:
                 return f"errback {ebs} although the observation runs", "app:end"
+            # the harness then shuts the context down: "ends ... with a network error on transport failure" has its
+            # sibling in C18 -- the observation is told LibraryShutdown, once (and nothing escapes: checked above)
+            if res.get("after_shutdown") is not None and res["after_shutdown"] != [("eb", "LibraryShutdown")]:
+                return (f"Context.shutdown() with the observation running: errbacks must get LibraryShutdown once, "
+                        f"saw {res['after_shutdown']}"), "app:shutdown-end"
         elif ebs != [end]:
             return f"observation must end once with {end}, errbacks got {ebs}", "app:end"
     else:
